@@ -141,6 +141,16 @@ Theorem C08_raman_in_fused_run_designs : exists l', no_auto (l_els (w_line [w_us
 Proof. exact pad_raman_designs. Qed.
 Print Assumptions C08_raman_in_fused_run_designs.
 
+(* design keeps the endpoint pair of every line (no hypothesis), hence the edges between ROADMs / transceivers and
+   reachability over any sequence of lines are unchanged for a whole network *)
+Theorem C08_endpoints_preserved : forall c l l', design_line c l = Ok l' -> endpoints l' = endpoints l.
+Proof. exact design_line_endpoints. Qed.
+Print Assumptions C08_endpoints_preserved.
+Theorem C08_reachability_preserved : forall c ls ls' a b, design_net c ls = Ok ls' ->
+  map endpoints ls' = map endpoints ls /\ (reach (edges ls') a b <-> reach (edges ls) a b).
+Proof. intros c ls ls' a b H. split; [exact (design_net_endpoints c ls ls' H) | exact (design_net_reach c ls ls' a b H)]. Qed.
+Print Assumptions C08_reachability_preserved.
+
 (* ---- non-vacuity: a line with a fibre to split, a fused junction, a short fibre to pad, a user amplifier ---- *)
 Example C08_ex_hyps : c_min w_cfg <= c_max w_cfg /\ no_auto (l_els ex_line).
 Proof. exact ex_hyps. Qed.
@@ -150,3 +160,6 @@ Example C08_ex_design : exists l', design_line w_cfg ex_line = Ok l' /\
 Proof. exact ex_design. Qed.
 Example C08_ex_split : calc_len (qz 200000) 50000 150000 90000 = Ok ((qz 200000 / qz 2)%Q, 2).
 Proof. vm_compute. reflexivity. Qed.
+Example C08_ex_reach : exists ls', design_net w_cfg [ex_line; mkLine Roadm "B" 1 Roadm "C" true [Fib (w_fib "g" 60 [])]] = Ok ls' /\
+  reach (edges ls') "A" "C" /\ ~ reach (edges ls') "C" "A".
+Proof. exact ex_reach. Qed.
